@@ -795,7 +795,9 @@ impl<P: PageTableFrameMapping> PageTableWalker<P> {
 
         if entry.is_unused() {
             if let Some(frame) = allocator.allocate_frame() {
-                entry.set_frame(frame, insert_flags);
+                // The entry must be present for the new table to be reachable, whatever
+                // flags were requested (see `Mapper::map_to_with_table_flags`).
+                entry.set_frame(frame, PageTableFlags::PRESENT | insert_flags);
                 created = true;
             } else {
                 return Err(PageTableCreateError::FrameAllocationFailed);
